@@ -458,7 +458,12 @@ def paint(ctx):
         for v, n in defs[tname]:
             p = getattr(n, "_parent", None)
             if isinstance(p, ast.If) and n in p.body:
-                tv = {const_value(ctx.m, x) for x in ast.walk(p.test) if isinstance(x, (ast.Name, ast.Constant))}
+                test_nodes = list(ast.walk(p.test))
+                for x in list(test_nodes):
+                    # a flag local holding the condition: look through its single definition
+                    if isinstance(x, ast.Name) and len(defs.get(x.id, ())) == 1:
+                        test_nodes.extend(ast.walk(defs[x.id][0][0]))
+                tv = {const_value(ctx.m, x) for x in test_nodes if isinstance(x, (ast.Name, ast.Constant))}
                 if {"vector-effect", "non-scaling-stroke"} <= tv and call_name(v) == "Matrix" and any(isinstance(x, ast.Constant) and x.value == "viewport_transform" for x in ast.walk(v)):
                     cond.append(v)
         ok = ok or (len(plain) == 1 and len(cond) == 1 and len(defs[tname]) == 2)
